@@ -1031,9 +1031,16 @@ func (n *IncludeNode) Render(w io.Writer, ctx *RenderContext) error {
 		includeCtx.sandboxed = true
 	}
 
-	// Evaluate the "with" variables in the including template's context
-	for name, valueNode := range n.variables {
-		value, err := ctx.EvaluateExpression(valueNode)
+	// Evaluate the "with" variables in the including template's context, in a fixed
+	// order (by name): which of two failing values is reported, and in which order
+	// functions with side effects run, must not depend on Go's map iteration
+	names := make([]string, 0, len(n.variables))
+	for name := range n.variables {
+		names = append(names, name)
+	}
+	sort.Strings(names)
+	for _, name := range names {
+		value, err := ctx.EvaluateExpression(n.variables[name])
 		if err != nil {
 			return err
 		}
